@@ -64,6 +64,9 @@ CLAIMS = {
     "C11": ("property-based testing (rapid) over Terraform-like worlds with resolving references; independent matching predicate (necessary / sufficient conditions) and the go-to-definition / find-references inverse relation",
             "For every collected origin, go-to-definition is judged sound and complete against a matching predicate written from the statement (address equality / dynamic prefix / block-local containment / scope and type constraints, target path), and find-references at each reported definition must list the origin; find-references results must themselves be collected origins pointing into the queried path that denote a declaration at the position.",
             "4/C11", TRUST + " The sets of targets and origins are the collectors' own output (their exactness is C09/C10)."),
+    "C19": ("property-based testing (rapid), differential: one structured configuration rendered in native and in JSON syntax, reference graph and outline compared",
+            "One generated configuration model is rendered twice; absolute targets (address, type, scope, nesting), origin addresses with constraints up to the documented any-type fallback, and the block/attribute outline must agree between the two syntaxes.",
+            "4/C19", TRUST + " Only schema-known attributes are written (JSON cannot tell unknown attributes from blocks); ranges and block-local targets are ignored as the statement says."),
 }
 
 def main():
